@@ -198,6 +198,19 @@ pub fn field_mutations(f: &Frame) -> Vec<Mutation> {
                 let mut m = Mutation::base(f, "T8", format!("field#{} {} packed-guid mask 0xff", fi, fld.path));
                 m.plain[fld.off] = 0xFF;
                 out.push(m);
+                // non-canonical encodings a well-behaved writer never produces: the whole field replaced by a mask with zero
+                // bytes behind set bits (longer than the canonical form of the same value), in three lengths
+                for (what, rep) in [("mask 0x03 with a zero second byte", vec![0x03u8, 0x05, 0x00]), ("mask 0xff with eight zero bytes", vec![0xFF, 0, 0, 0, 0, 0, 0, 0, 0]), ("mask 0x81 with zero bytes", vec![0x81, 0x00, 0x00]), ("mask 0x00", vec![0x00])] {
+                    let mut m = Mutation::base(f, "T8", format!("field#{} {} packed guid replaced by {}", fi, fld.path, what));
+                    let delta = rep.len() as i64 - fld.len as i64;
+                    m.plain.splice(fld.off..fld.off + fld.len, rep);
+                    if let Some(cs) = m.comp_start {
+                        if fld.off < cs {
+                            m.comp_start = Some((cs as i64 + delta) as usize);
+                        }
+                    }
+                    out.push(m);
+                }
             }
             FKind::CString => {
                 if fld.len >= 1 {
